@@ -16,7 +16,7 @@ def txt(a):
 def _wr_traces(rep, pid, tier):
     wd = workdir(pid)
     mx = 2 if tier == "quick" else 3
-    r = tlc("MC_Bundle", "SPECIFICATION Spec\nCONSTANTS MaxEx = %d\nTmpl = {1, 2, 3, 4, 5, 6, 7, 8, 9, 10}\nINVARIANTS WrittenIsWellFormed ReadsBack\nCHECK_DEADLOCK FALSE\n" % mx, pid + "/mc", timeout=3000)
+    r = tlc("MC_Bundle", "SPECIFICATION Spec\nCONSTANTS MaxEx = %d\nTmpl = {1, 2, 3, 4, 5, 6, 7, 8, 9, 10, 11, 12}\nINVARIANTS WrittenIsWellFormed ReadsBack\nCHECK_DEADLOCK FALSE\n" % mx, pid + "/mc", timeout=3000)
     rep.add_tlc("MC_Bundle", r)
     # one exchange more over the templates that mix a URL with several variants and a URL with one response
     r2 = tlc("MC_Bundle", "SPECIFICATION Spec\nCONSTANTS MaxEx = %d\nTmpl = {3, 5, 6, 9, 10}\nINVARIANTS WrittenIsWellFormed ReadsBack\nCHECK_DEADLOCK FALSE\n" % (mx + 1), pid + "/mc2", timeout=3000)
@@ -80,7 +80,7 @@ def _neg_wr(rep, pid, cases):
 
 def check_c03(tier):
     rep = Report("C03", tier)
-    rep.cov["rule"] = ("design level: MC_Bundle enumerates every bundle of <= 2 (quick) / 3 (thorough) exchanges over 10 templates (two URLs of different length, bodies "
+    rep.cov["rule"] = ("design level: MC_Bundle enumerates every bundle of <= 2 (quick) / 3 (thorough) exchanges over 12 templates (incl. Variants / Variant-Key as repeated field lines) (two URLs of different length, bodies "
                        "0/1/23/24, b1 variant sets complete / incomplete / overlapping / multi-key / inconsistent) x b1/b2 x primary / manifest; invariants: "
                        "written bytes read back (Extract) to exactly the expected exchanges in index order, refusal exactly on broken coverage / repeated URL / "
                        "manifest in b2. Binding: every enumerated bundle and seeded random bundles (0..35 exchanges, URL shapes incl. ports, %-escapes, queries, "
